@@ -11,6 +11,7 @@ state at completion, restart into any runner count) and harness/cmd/kreader
 snapshots.Store; records carry their identity as payload)."""
 import json
 import os
+import random
 from concurrent.futures import ThreadPoolExecutor
 
 import vlib
@@ -24,7 +25,7 @@ RULE_READER = ("TLC explores KinesisReader.tla for small bounds - every interlea
 
 KNOWN_LOCAL = os.path.join(vlib.ROOT, "findings", "known_splitter.jsonl")
 INVS = ["TypeOK", "OneReader", "PerShardOrder"]
-OFF = dict(Dev_StateAtCompletion=False, Dev_CursorAtReaderOnly=False, Bug_AtSeq=False)
+OFF = dict(Dev_StateAtCompletion=False, Pre_CursorAtReaderOnly=False, Bug_AtSeq=False)
 CODE = dict(OFF, Dev_StateAtCompletion=True)  # the tree as it is
 
 
@@ -50,7 +51,7 @@ def consts(ninit=1, shards=3, runners=(1, 2), rec=2, page=2, starts=2, ckpts=1, 
 def brief(cc):
     return "N=%d shards<=%d runners=%s rec<=%d page<=%d starts<=%d ckpts<=%d %s" % (
         cc["NInit"], cc["MaxShards"], cc["Runners"][1:], cc["MaxRec"], cc["MaxPage"], cc["MaxStarts"], cc["MaxCkpts"],
-        " ".join(k for k in ("Dev_StateAtCompletion", "Dev_CursorAtReaderOnly", "Bug_AtSeq") if cc[k]) or "all switches off")
+        " ".join(k for k in ("Dev_StateAtCompletion", "Pre_CursorAtReaderOnly", "Bug_AtSeq") if cc[k]) or "all switches off")
 
 
 def harness_cfg(cc, **extra):
@@ -100,35 +101,66 @@ def replay_gen(c, cc, num, seed, label=None):
     return behs, res
 
 
+def witnesses(c, seed):
+    """schedules only the unrepaired code fails (Pre_CursorAtReaderOnly on), exported from exhaustive runs (CexDump prints the
+    shortest history of every bad state): the real code must keep the property on them"""
+    quick = c.tier == "quick"
+    cfgs = [dict(ninit=1, shards=1, runners=(1,), rec=2, page=1), dict(ninit=2, shards=2, runners=(1, 2), rec=1, page=1)]
+    if not quick:
+        cfgs.append(dict(ninit=1, shards=3, runners=(1, 2), rec=1, page=1))
+    for i, kw in enumerate(cfgs):
+        cc = consts(starts=3, ckpts=2, log=True, maxlen=40, **dict(kw, **dict(CODE, Pre_CursorAtReaderOnly=True)))
+        r = vlib.run_tlc("KinesisReader", cfg=dict(constants=cc, invariants=["CexDump"], view="View"), workers=1,
+                         timeout=90 if quick else 600, name="KinesisReader-cex")
+        c.add_tlc(r, "KinesisReader counterexample export " + brief(cc), must_hold=False)
+        behs = [b for b in r.behaviours if any(x["dev"] == "Pre_CursorAtReaderOnly" for x in b[-1].get("bad", []))]
+        behs.sort(key=lambda b: json.dumps(b))
+        random.Random(seed + i).shuffle(behs)
+        behs = sorted(behs[:12 if quick else 150], key=len)
+        if not behs:
+            c.errors.append("the model no longer exhibits Pre_CursorAtReaderOnly for %s: %s" % (brief(cc), r.error))
+            continue
+        payload = dict(property="C16", family="kreader", seed=seed, config=harness_cfg(cc, Adversarial=True), behaviours=behs)
+        res = vlib.run_harness("kreader", payload)
+        c.add_harness(res, payload, "KinesisReader adversarial: %d witness schedules of Pre_CursorAtReaderOnly on the repaired code (%s)" %
+                      (len(behs), brief(cc)))
+        if i == 0:
+            c.sample(dict(kind="KinesisReader.tla counterexample (Pre_CursorAtReaderOnly), replayed on the real reader + splitter", steps=behs[0]))
+
+
 def reader_half(c):
     load_local_known(c)
     s = c.seed
     quick = c.tier == "quick"
     if quick:
         d1 = consts(ninit=1, shards=3, runners=(1, 2), rec=2, page=2, starts=2, ckpts=1)
-        c1 = consts(ninit=1, shards=3, runners=(1, 2), rec=1, page=1, starts=3, ckpts=2, **CODE)
+        d2 = consts(ninit=1, shards=1, runners=(1, 2), rec=2, page=2, starts=3, ckpts=2)
+        c1 = consts(ninit=1, shards=3, runners=(1, 2), rec=1, page=1, starts=2, ckpts=1, **CODE)
         jobs = [(d1, ["DesignOK"] + INVS, None, "KinesisReader design " + brief(d1)),
+                (d2, ["DesignOK"] + INVS, None, "KinesisReader design " + brief(d2)),
                 (c1, ["Attributed"] + INVS, None, "KinesisReader code " + brief(c1))]
         tl, wk, par = 400, 4, 1
     else:
         jobs = []
         for dev, inv, nm in ((OFF, "DesignOK", "design"), (CODE, "Attributed", "code")):
-            for cc in (consts(ninit=1, shards=3, runners=(1, 2), rec=2, page=2, starts=3, ckpts=2, **dev),
-                       consts(ninit=2, shards=3, runners=(1, 2), rec=2, page=2, starts=2, ckpts=1, **dev),
-                       consts(ninit=2, shards=4, runners=(2,), rec=1, page=1, starts=2, ckpts=1, **dev)):
+            for cc in (consts(ninit=1, shards=3, runners=(1, 2), rec=2, page=2, starts=2, ckpts=1, **dev),
+                       consts(ninit=1, shards=3, runners=(1, 2), rec=1, page=1, starts=3, ckpts=2, **dev),
+                       consts(ninit=2, shards=3, runners=(1, 2), rec=1, page=1, starts=3, ckpts=2, **dev),
+                       consts(ninit=2, shards=3, runners=(2,), rec=2, page=2, starts=2, ckpts=1, **dev)):
                 jobs.append((cc, [inv] + INVS, None, "KinesisReader %s %s" % (nm, brief(cc))))
         tl, wk, par = 1200, 4, 1
     for sw, kw in (("Bug_AtSeq", dict(shards=1, rec=2, page=1)),
-                   ("Dev_StateAtCompletion", dict(shards=3, rec=1, page=1))):
-        cc = consts(ninit=1, runners=(1,), starts=2, ckpts=1, **dict(kw, **{sw: True}))
+                   ("Dev_StateAtCompletion", dict(shards=3, rec=1, page=1)),
+                   ("Pre_CursorAtReaderOnly", dict(shards=1, rec=1, page=1, starts=3, ckpts=2))):
+        cc = consts(ninit=1, runners=(1,), **dict(dict(starts=2, ckpts=1), **dict(kw, **{sw: True})))
         jobs.append((cc, ["DesignOK"], "DesignOK", "KinesisReader non-vacuity " + brief(cc)))
     started = tlc_start(jobs, wk, tl, par)
     c.exhaustive = True
 
     if quick:
-        gens = [(consts(ninit=2, shards=5, runners=(1, 2), rec=3, page=2, starts=3, ckpts=3, maxlen=60, log=True, **CODE), 120),
-                (consts(ninit=1, shards=4, runners=(1, 2, 3), rec=4, page=3, starts=4, ckpts=4, maxlen=70, log=True, **CODE), 120),
-                (consts(ninit=3, shards=6, runners=(1, 2, 3), rec=2, page=2, starts=3, ckpts=3, maxlen=80, log=True, **CODE), 80)]
+        gens = [(consts(ninit=2, shards=5, runners=(1, 2), rec=3, page=2, starts=3, ckpts=3, maxlen=60, log=True, **CODE), 90),
+                (consts(ninit=1, shards=4, runners=(1, 2, 3), rec=4, page=3, starts=4, ckpts=4, maxlen=70, log=True, **CODE), 90),
+                (consts(ninit=3, shards=6, runners=(1, 2, 3), rec=2, page=2, starts=3, ckpts=3, maxlen=80, log=True, **CODE), 60)]
     else:
         gens = [(consts(ninit=n, shards=sh, runners=rs, rec=rec, page=pg, starts=st, ckpts=st, maxlen=ml, log=True, **CODE), 500)
                 for n, sh, rs, rec, pg, st, ml in ((1, 3, (1, 2), 4, 3, 4, 60), (1, 5, (1, 2, 3), 3, 2, 4, 80), (2, 5, (1, 2), 3, 2, 3, 70),
@@ -140,6 +172,7 @@ def reader_half(c):
             first = behs[0]
     if first:
         c.sample(dict(kind="KinesisReader.tla behaviour (first steps)", steps=first[:16]))
+    witnesses(c, s * 1000 + 373)
     tlc_collect(c, started)
     c.assumptions.append("C16 reader half (Kinesis): the job and the runner loop are played by the harness as jobs/job.go and "
                          "workers/sourcerunner do (per-runner FIFO of AssignSplits messages, one ReadEvents per Read step, "
